@@ -15,7 +15,7 @@ CLAIMED = {
     'C08': dict(engine='execsim', design='4.2',
                 technique='deterministic simulation: seeded query histories over fixed overrides, every response compared with an isolated single query on a pristine executor in a foreign process',
                 text='Overrides are established one write per cell - all at once or, on half of the runs, in up to three epochs separated by query bursts - and 6-80 queries are issued from 1-3 logical clients through get_cell/get_cells/get_sheet with every addressing spelling, repeated and permuted, with evaluation failures in the middle and (on some runs) a simulated clock step between two bursts; each response must equal the value of one get_cell on a pristine executor given the overrides in force in one batch (other process, other hash seed, same instant), get_sheet must have exactly the spec-derived shape, and sizes must be unchanged afterwards.',
-                note='Exploration over sampled histories within the generator bounds (<=3 sheets, <=48 cells, dependency chains of a handful of cells: a defect that needs a chain of hundreds of cells, e.g. one that involves the interpreter's recursion limit, is out of reach). The isolated reference uses the same generated source text (C09 decides that the text itself is stable). Grid shape is derived from the workbook spec, so the check assumes the reader reports the used range of a dense-origin workbook correctly (C18, not claimed).'),
+                note='Exploration over sampled histories within the generator bounds (<=3 sheets, <=48 cells, dependency chains of a handful of cells: a defect that needs a chain of hundreds of cells, e.g. one that involves the recursion limit of the interpreter, is out of reach). The isolated reference uses the same generated source text (C09 decides that the text itself is stable). Grid shape is derived from the workbook spec, so the check assumes the reader reports the used range of a dense-origin workbook correctly (C18, not claimed).'),
     'C06': dict(engine='loadsim', design='4.6',
                 technique='deterministic simulation: seeded write/load/clock-jump/chdir/relink histories over real files re-stamped from a simulated clock (granularity 1ns..2s), file-loaded executor compared with the class object of the returned text',
                 text='Decides ONLY the clause "behaves the same whether loaded from the written file or used as a class object": 2-4 variants of a generated workbook are translated and written to 1-3 output paths repeatedly, the paths - spelled absolutely, relative to a working directory that changes, or through a symbolic link that is re-pointed; with distinct names or the same name in several directories - are loaded through Executor.set_executed_class(class_file=...) into fresh executors between clock jumps (forward and backward, inside and across timestamp quanta), other tools leave bytecode-cache entries behind, and every cell, the titles, the sizes and - after the same set_cells batch has been given to both - the overridden behaviour of the file-loaded executor must equal those of an executor given the class object exec\'d from the text the parser returned for that write (one class object per text, shared by all executors that use it).',
